@@ -1,6 +1,6 @@
 ----------------------------- MODULE Trace_AstTree -----------------------------
 (* Judges observations of the real astutil.CloneNode / CloneExpression / CloneTree / Walk / Inspect,
-   one record per line of obs.ndjson - one record per (node of a corpus tree, API):
+   one record per line of obs.ndjson - one record per (node of a corpus or generated tree, API):
      {id, tree, sub, api, kind, orig, clone, copy, mutate, after, walk, wlog, inspect, ilog, cbelow, wbelow}
    orig   pointer graph of the subtree rooted at the node (see AstTree.tla)
    clone  "ok" | "panic";  copy = pointer graph of the returned clone (same identity numbering)
@@ -12,9 +12,9 @@
           (then this record is not the root cause: class "masked", counted).
 
    PROPERTY clauses:  Iso(orig, copy), Disjoint(orig, copy), Unchanged(orig, after), EachOnce(wlog),
-   EachOnce(ilog); a panic of the API on a subtree none of whose proper subtrees panics.
-   DIAGNOSTIC (class "drift"): callback order differs from field order; callbacks with a typed-nil or
-   foreign node. *)
+   EachOnce(ilog), OnlyNodes(wlog), OnlyNodes(ilog) (no callback with a nil pointer wrapped in a non-nil ast.Node);
+   a panic of the API on a subtree none of whose proper subtrees panics.
+   DIAGNOSTIC (class "drift"): callback order differs from field order; callbacks with a foreign node. *)
 EXTENDS AstTree, TLC, Json, SequencesExt
 
 Obs == ndJsonDeserialize("obs.ndjson")
@@ -40,19 +40,27 @@ CloneSigs(r) ==
        \cup (IF r.mutate # "ok" \/ Unchanged(r.orig, r.after) THEN {}
              ELSE LET d == ChangeOf(r.orig, r.after) IN {Sg(r.api, ChangedCause(d[3]), d[1], d[2])})
 
+\* a callback with a nil child: named after the node under which it was made and, when that node has exactly one nil
+\* single-child field, after that field
+NilOneFields(nd) == {x \in 1..Len(nd.f) : nd.f[x].m = "one" /\ nd.f[x].c = <<0>>}
+NonNodeSig(op, log, i, r) ==
+  LET o == OpenAt(log, i) IN
+  IF o = 0 \/ (o > 0 /\ log[o] <= 0) THEN Sg(op, "visited-non-node", "-", "-")
+  ELSE LET nd == r.orig.nodes[log[o]]  F == NilOneFields(nd) IN
+       Sg(op, "visited-non-node", nd.k, IF Cardinality(F) = 1 THEN nd.f[CHOOSE x \in F : TRUE].n ELSE "-")
 VisitSigs(op, outcome, below, log, r) ==
   IF outcome = "skip" THEN {}
   ELSE IF outcome = "panic" THEN (IF below THEN {} ELSE {Sg(op, "panic", r.kind, "-")})
   ELSE {LET e == EdgeTo(r.orig, 1, n) IN Sg(op, "not-visited", e[1], e[2]) :
           n \in {m \in Missing(log, r.orig, 1) : ParentOf(r.orig, 1, m) = 0 \/ Count(log, ParentOf(r.orig, 1, m)) > 0}}
        \cup {Sg(op, "visited-twice", r.orig.nodes[n].k, "-") : n \in Repeated(log, r.orig, 1)}
+       \cup {NonNodeSig(op, log, i, r) : i \in NonNodes(log)}
 
 Sigs(r) == CloneSigs(r) \cup VisitSigs("Walk", r.walk, r.wbelow, r.wlog, r) \cup VisitSigs("Inspect", r.inspect, r.wbelow, r.ilog, r)
 Masked(r) == (r.clone = "panic" /\ r.cbelow) \/ (r.walk = "panic" /\ r.wbelow)
 DriftSigs(r) ==
   (IF r.walk = "ok" /\ EachOnce(r.wlog, r.orig, 1) /\ r.wlog # Pre(r.orig, 1) /\ \A i \in 1..Len(r.wlog) : r.wlog[i] >= 0
    THEN {Sg("Walk", "order-differs-from-field-order", r.kind, "-")} ELSE {})
-  \cup {Sg("Walk", "typed-nil-callback", r.kind, "-") : i \in {i \in 1..Len(r.wlog) : r.wlog[i] = -1}}
   \cup {Sg("Walk", "foreign-callback", r.kind, "-") : i \in {i \in 1..Len(r.wlog) : r.wlog[i] = -2}}
 Judge(r) == LET s == Sigs(r)  d == DriftSigs(r) IN
             [cls |-> IF s # {} THEN "violation" ELSE IF Masked(r) THEN "masked" ELSE IF d # {} THEN "drift" ELSE "ok",
